@@ -134,8 +134,6 @@ def addRow (rows : List Row) (route : Bytes) (status size : Nat) : List Row :=
 
 def sameMultiset (a b : List Row) : Bool := a.length == b.length && a.all (fun r => b.contains r)
 
-def methods : List Bytes := ["GET", "POST", "PUT", "PATCH", "DELETE", "HEAD", "OPTIONS"].map String.toList
-
 def stepA (id : String) (inp obs : List String) : String :=
   if obs == ["P"] then verdict id false false "-" "a-panic-escaped-ServeHTTP" else
   match runP (do
@@ -160,7 +158,7 @@ def stepA (id : String) (inp obs : List String) : String :=
     let allLabels := pats ++ sentinels
     let s := h.started == h.ended && h.active == 0 && h.spans.length == liveOuts.length &&
       h.spans.all (fun sp => sp.err == errOf sp.clientStatus &&
-        (methods.any fun m => (allLabels.any fun l => sp.name == m ++ " ".toList ++ l) ||
+        ((reqs.map fun (_, _, m) => m).any fun m => (allLabels.any fun l => sp.name == m ++ " ".toList ++ l) ||
           -- a registered empty pattern only ever matches the root path, whose canonical pattern is "/"
           (pats.contains [] && sp.name == m ++ " /".toList))) &&
       h.rows.all (fun r => labelOK pats r.route) &&
